@@ -19,7 +19,20 @@
 namespace {
 
 using SP = cocls::suspend_point<void>;
-using SPI = cocls::suspend_point<int>;
+// value attached to a typed suspend point: being moved from is visible
+struct TV {
+    int v;
+    TV(int x) : v(x) {}
+    TV(const TV &) = default;
+    TV(TV &&o) noexcept : v(o.v) { o.v = -7777; }
+    TV &operator=(const TV &) = default;
+    TV &operator=(TV &&o) noexcept {
+        v = o.v;
+        o.v = -7777;
+        return *this;
+    }
+};
+using SPI = cocls::suspend_point<TV>;
 
 // a coroutine whose only job is to be resumed exactly once
 struct Tok {
@@ -57,7 +70,8 @@ static Tok drive_await_self_first(SP *sp, int *done) {
     ++*done;
 }
 static Tok drive_await_typed(SPI *sp, int *done, int *value) {
-    *value = co_await *sp;
+    TV &got = co_await *sp;
+    *value = got.v;
     ++*done;
 }
 
@@ -71,6 +85,7 @@ struct World {
     std::vector<std::unique_ptr<int>> cells;  // values received by co_await on the typed slot
     std::vector<int> expected_values;
     int created = 0;
+    int peek_mismatch = 0;
     int live() const {
         int n = 0;
         for (auto &s : v)
@@ -85,7 +100,7 @@ struct World {
     }
 };
 
-enum Kind { NEW, ADD, ADD4, MERGE, ASSIGN, MOVECTOR, POP, CLEAR, DESTROY, AWAIT, AWAITSELF, AWAITSELF1, NEWT, TADD, TMOVE, TTOVOID, TPOP, TDESTROY, TAWAIT };
+enum Kind { NEW, ADD, ADD4, MERGE, ASSIGN, MOVECTOR, POP, CLEAR, DESTROY, AWAIT, AWAITSELF, AWAITSELF1, CSP, CSPNEST, TPEEK, NEWT, TADD, TMOVE, TTOVOID, TPOP, TDESTROY, TAWAIT };
 struct OpDef {
     Kind k;
     int a, b;
@@ -110,6 +125,8 @@ static void build_ops(int nv) {
         g_ops.push_back({AWAIT, i, -1, S("await", i)});
         g_ops.push_back({AWAITSELF, i, -1, S("awaitself-last", i)});
         g_ops.push_back({AWAITSELF1, i, -1, S("awaitself-first", i)});
+        g_ops.push_back({CSP, i, -1, S("create_suspend_point(clear)", i)});
+        g_ops.push_back({CSPNEST, i, -1, S("create_suspend_point(nested-queue(clear))", i)});
         for (int j = 0; j < nv; j++)
             if (i != j) {
                 g_ops.push_back({MERGE, i, j, S("merge", i, j)});
@@ -124,6 +141,7 @@ static void build_ops(int nv) {
     g_ops.push_back({TPOP, 0, -1, "tpop"});
     g_ops.push_back({TDESTROY, 0, -1, "tdestroy"});
     g_ops.push_back({TAWAIT, 0, -1, "tawait"});
+    g_ops.push_back({TPEEK, 0, -1, "tpeek"});
 }
 
 static bool enabled(const World &w, const OpDef &o, int maxh) {
@@ -139,7 +157,10 @@ static bool enabled(const World &w, const OpDef &o, int maxh) {
         case DESTROY:
         case AWAIT:
         case AWAITSELF:
-        case AWAITSELF1: return w.v[o.a].has_value();
+        case AWAITSELF1:
+        case CSP:
+        case CSPNEST: return w.v[o.a].has_value();
+        case TPEEK: return w.t.has_value();
         case NEWT: return !w.t && w.live() < maxh;
         case TADD: return w.t.has_value() && w.live() < maxh;
         case TMOVE:
@@ -183,6 +204,24 @@ static void apply(World &w, const OpDef &o) {
             drive_await_self_first(&*w.v[o.a], w.drivers.back().get()).h.resume();
             break;
         }
+        case CSP: {
+            // what clear() readies is collected back out of the ready queue into a new suspend point and kept
+            SP got = cocls::coro_queue::create_suspend_point([&] { w.v[o.a]->clear(); });
+            *w.v[o.a] << std::move(got);
+            break;
+        }
+        case CSPNEST: {
+            // the callback runs a nested queue session, which resumes everything that is ready: nothing is left to collect
+            SP got = cocls::coro_queue::create_suspend_point([&] { cocls::coro_queue::install_queue_and_call([&] { w.v[o.a]->clear(); }); });
+            *w.v[o.a] << std::move(got);
+            break;
+        }
+        case TPEEK: {
+            // looking at the attached value does not change it
+            int seen = static_cast<TV>(*w.t).v;
+            if (seen != w.t_value) w.peek_mismatch++;
+            break;
+        }
         case NEWT:
             w.t_value = 1000 + w.created;
             w.t.emplace(w.fresh(), w.t_value);
@@ -209,6 +248,9 @@ static void apply(World &w, const OpDef &o) {
 
 static uint64_t key_of(const World &w, bool coro_mode) {
     uint64_t k = coro_mode ? 77 : 11;
+    // in coroutine mode what was readied so far still waits in the thread's ready queue: part of the state
+    // (create_suspend_point and nested queue sessions look at it)
+    if (coro_mode && cocls::coro_queue::instance) k = seqx::mix(k, (uint64_t)std::min<size_t>(cocls::coro_queue::instance->_queue.size(), 3) + 1000);  // 0, 1, 2, many
     auto slot = [&](const SP *p) {
         if (!p) return (uint64_t)0;
         uint64_t cnt = p->_count_flag >> 1, heap = p->_count_flag & 1;
@@ -247,7 +289,8 @@ static uint64_t run_history(seqx::Runner &R, bool coro_mode, const std::vector<i
                     if (enabled(w, g_ops[i], maxh)) next_enabled->push_back((int)i);
             }
             // typed value must have survived every move so far
-            if (w.t && static_cast<int>(*w.t) != w.t_value) R.fail("sp/typed-value", "typed suspend point carries %d, producer supplied %d", static_cast<int>(*w.t), w.t_value);
+            if (w.peek_mismatch) R.fail("sp/typed-value", "looking at the value of the typed suspend point gave something else than the producer supplied (%d times)", w.peek_mismatch);
+            if (w.t && static_cast<TV>(*w.t).v != w.t_value) R.fail("sp/typed-value", "typed suspend point carries %d, producer supplied %d", static_cast<TV>(*w.t).v, w.t_value);
             // teardown: plain destruction of whatever is left
             for (auto &s : w.v) s.reset();
             w.t.reset();
@@ -296,6 +339,9 @@ void seqx_run(seqx::Runner &R, const std::string &tier) {
     if (R.worker >= (int)all.size() * 2) return;
     bool coro_mode = R.worker % 2 == 1;
     std::vector<Cfg> cfgs{all[(size_t)R.worker / 2]};
+    // in coroutine mode the length of the ready queue is part of the state (0, 1, 2, many): fewer live handles there
+    if (coro_mode)
+        for (auto &c : cfgs) c.maxh = q ? 10 : (c.nv == 2 ? 26 : 10);
     for (auto &cfg : cfgs) {
         build_ops(cfg.nv);
         std::unordered_map<uint64_t, int> seen;
